@@ -95,6 +95,10 @@ def normalise_code(text, fired):
     text = code_sub(text, r'(?<![A-Za-z0-9_])async\s+fn(?![A-Za-z0-9_])', 'fn', fired, 'N3')
     text = code_sub(text, r'(?<=[)\?])\s*\.await(?![A-Za-z0-9_])', '', fired, 'N3')
     text = code_sub(text, r'(?<=[A-Za-z0-9_])\s*\.await(?![A-Za-z0-9_])', '.vawait()', fired, 'N3')
+    # N24: `async move { E }` / `async { E }` (an async BLOCK, e.g. the argument of tokio::spawn) -> `{ E }`: the block's value stands
+    # for the future.  Used only where E is one call of a connection-task entry point whose stub returns a ghost description of
+    # the task; nothing about E's effects is (or may be) concluded at the spawn point.
+    text = code_sub(text, r'(?<![A-Za-z0-9_])async\s+(?:move\s+)?(?=\{)', '', fired, 'N24')
     # N4
     text = code_sub(text, r'u32::from_be_bytes\(', 'u32_from_be_bytes(', fired, 'N4')
 
@@ -154,6 +158,34 @@ def normalise_code(text, fired):
         q2 = text.find('"', mm.end())
         lit = text[mm.end() - 1:q2 + 1]
         text = text[:k] + 'str_concat(%s, %s)' % (text[k:close + 1], lit) + text[q2 + 1:]
+        fired['N10'] = fired.get('N10', 0) + 1
+    # N10 (argument form):  "lit".to_string() + RHS   ->  str_concat("lit".to_string(), RHS)   (RHS up to the next top-level , ) ; +)
+    m = mask(text)
+    for mm in list(re.finditer(r'"\s*\.to_string\(\)\s*\+\s*', m))[::-1]:
+        q1 = mm.start()                       # closing quote of the literal
+        q0 = text.rfind('"', 0, q1)
+        while q0 > 0 and text[q0 - 1] == '\\':
+            q0 = text.rfind('"', 0, q0)
+        if q0 < 0:
+            continue
+        k, depth = mm.end(), 0
+        while k < len(m):
+            if m[k] in '([{':
+                depth += 1
+            elif m[k] in ')]}':
+                if depth == 0:
+                    break
+                depth -= 1
+            elif m[k] in ',;+' and depth == 0:
+                break
+            k += 1
+        lhs = text[q0:mm.end()].rstrip()
+        lhs = lhs[:lhs.rfind('+')].rstrip()
+        rhs = text[mm.end():k].strip()
+        if not rhs:
+            continue
+        text = text[:q0] + 'str_concat(%s, %s)' % (lhs, rhs) + text[k:]
+        m = mask(text)
         fired['N10'] = fired.get('N10', 0) + 1
     # N16: V[A..B].copy_from_slice(S)  ->  vx_copy_range(&mut V, A, B, S)
     m = mask(text)
